@@ -518,6 +518,26 @@ static void gen_retry(vh_rng_t *rng)
   if (vh_chance(rng, 1, 4)) {
     gen_add_action((int64_t)vh_below(rng, 3000000), AA_SET_SERVERS, 0, 0);
   }
+  if (vh_chance(rng, 1, 8)) {
+    /* resolver flip-flop: the one configured server is replaced again and again while requests wait on it;
+     * every replacement re-sends them, and the retry budget (servers ever configured x tries) still holds */
+    int     a = (int)vh_below(rng, (uint32_t)sim_nsrv), b = (int)vh_below(rng, (uint32_t)sim_nsrv), k, flips = vh_range(rng, 6, 30);
+    int64_t t = (int64_t)vh_below(rng, 300000);
+    if (b == a) {
+      b = (a + 1) % sim_nsrv;
+    }
+    gen_srv_mood(&sim_srv[a], MOOD_SILENT, rng);
+    gen_srv_mood(&sim_srv[b], MOOD_SILENT, rng);
+    app_cfg.nsrv_cfg   = 1;
+    app_cfg.srv_cfg[0] = a;
+    app_cfg.tries      = vh_range(rng, 1, 3);
+    app_cfg.timeout_ms = vh_range(rng, 2000, 6000);
+    for (k = 0; k < flips; k++) {
+      t += (int64_t)vh_range(rng, 5, 150) * 1000;
+      gen_add_action(t, AA_SET_SERVERS, 0, 1 + ((k & 1) ? a : b));
+    }
+    sim_note("retry_server_flip_flop");
+  }
   if (vh_chance(rng, 1, 10)) {
     gen_add_action((int64_t)vh_below(rng, 3000000), AA_CANCEL, 0, 0);
   }
